@@ -3,7 +3,10 @@
 (* C31 case generator: command element sets over VRs UI, US, UL, AE, LO, AT *)
 (* with text value lengths {0,1,2,3,max}, multiplicity 1..3, 1..6 elements; *)
 (* each case carries the expected Command Group Length and the expected     *)
-(* Implicit VR LE bytes (CommandSet!GroupLength / CommandWire).             *)
+(* Implicit VR LE bytes (CommandSet!GroupLength / CommandWire).  Each       *)
+(* element also carries a declared header length (exact, 0, value + 3, 16,  *)
+(* undefined) that the driver realises with DataElement::new_with_len; the  *)
+(* expectation depends on the values only.                                  *)
 (***************************************************************************)
 EXTENDS CommandSet, Json
 
@@ -34,12 +37,23 @@ Value(vr, o) ==
             [k \in 1..m |-> Text(vr, n)]
     ELSE [k \in 1..((o % 3) + 1) |-> Num(vr, k)]
 
+(* the length DECLARED in the element header handed to the constructor (DataElement::new_with_len): *)
+(* it may disagree with the value; the group length is about the bytes actually written            *)
+Decls == <<"exact", "zero", "plus", "pad16", "undef">>
+DeclLen(d, vr, v) == CASE d = "exact" -> Len(ValueRaw("IVRLE", vr, v))
+                       [] d = "zero"  -> 0
+                       [] d = "plus"  -> Len(ValueRaw("IVRLE", vr, v)) + 3
+                       [] d = "pad16" -> 16
+                       [] d = "undef" -> -1
+
 Subsets == {S \in SUBSET (1..Len(Slots)) : Cardinality(S) \in 1..6}
 RECURSIVE Pick(_, _, _)
 Pick(S, j, i) == IF i > Len(Slots) THEN <<>>
                  ELSE IF i \in S
-                 THEN << [tag |-> Slots[i].tag, vr |-> Slots[i].vr,
-                          v |-> Value(Slots[i].vr, (j + 4 * i) % NOpts(Slots[i].vr))] >> \o Pick(S, j, i + 1)
+                 THEN LET v == Value(Slots[i].vr, (j + 4 * i) % NOpts(Slots[i].vr))
+                          d == Decls[((j + 2 * i) % 5) + 1]
+                      IN << [tag |-> Slots[i].tag, vr |-> Slots[i].vr, v |-> v,
+                             decl |-> d, dlen |-> DeclLen(d, Slots[i].vr, v)] >> \o Pick(S, j, i + 1)
                  ELSE Pick(S, j, i + 1)
 
 VARIABLES S, j
